@@ -267,9 +267,13 @@ func (m *Model) materialize(d *Node) bool {
 	}
 	if d.lazyLeft > 0 {
 		d.lazyLeft--
+		m.sit("lazy-fetch-failed")
 		return false
 	}
 	spec := d.Lazy
+	if spec.Failures > 0 {
+		m.sit("lazy-fetch-succeeded-after-failure")
+	}
 	d.Lazy = nil
 	names := make([]string, 0, len(spec.Children))
 	for name := range spec.Children {
